@@ -20,6 +20,13 @@ deleted afterwards); every one gave VIOLATION with a shrunk replay within the fi
 10 FieldIndex.apply: a 2-element *list* treated as a range
 11 assertint rejects bool (`type(docid) is not int`)
 12 unordered search starts from results[0] and drops the last of >3 answers (needs a 4-index query)
+
+Composed model (`st=<sort_type>` option: `searchM / queryM / callM / sortM` of HypatiaModel/CatalogSort.lean call the
+C07 model of `FieldIndex.sort` itself, every sort_type; ~45 % of the sorted commands).  Mutations (mut_e2e_cN):
+13 CatalogQuery.sort passes `sort_type=None` instead of the argument -> `st=other` / forced fwscan in reverse
+   answer instead of ValueError                                                              caught
+14 FieldIndex.nbest_descending: `heapq.nlargest(limit + 1, ...)` (one id too many)            caught
+15 CatalogQuery.sort: `numdocs = limit` instead of `min(numdocs, limit)`                       caught
 """
 from lib.core import exc_name, idset
 
@@ -31,7 +38,12 @@ THEOREMS = ["Hyp.Catalog." + t for t in (
     "c12_fanout_entry", "c12_field_history", "c12_keyword_history", "c12_facet_history", "c12_names_stable",
     "c12_setitem_name", "c12_setitem_get", "c12_search_unordered", "c12_search_ordered", "c12_interAll",
     "c12_sort_without_index", "c12_sort_num", "c12_num_eq_min", "c12_call_eq_query", "c12_field_legacy",
-    "c12_keyword_legacy", "c12_facet_legacy", "c12_search_meaning_unordered", "c12_search_meaning_ordered")]
+    "c12_keyword_legacy", "c12_facet_legacy", "c12_search_meaning_unordered", "c12_search_meaning_ordered",
+    # composed with C07 (the sort index's own FieldIndex.sort), C04 (query objects over the catalog's index models)
+    # and C11 (ResultSet.sort)
+    "c12_search_is_set_then_sort", "c12_sort_composed", "c12_sort_composed_errors",
+    "c12_sort_composed_without_index", "c12_search_sorted_unordered", "c12_search_sorted_ordered",
+    "c12_query_sorted", "c12_catalog_is_model_catalog", "c12_resultset_sort_composed")]
 CASES = {"quick": 8000, "thorough": 300000}
 BUDGET_S = {"quick": 45, "thorough": 800}
 RULE = ("catalogs of 1-5 indexes (field, keyword, facet; attribute-name and callable discriminators, several "
@@ -271,6 +283,10 @@ def gen_form_hit(rng, kind, vals, kws, facets, tgt):
     return ["d", "or", "l" if len(mixed) == 2 or rng.random() < 0.7 else "t"] + mixed
 
 
+SORT_TYPES = {"none": None, "fwscan": "fwscan", "nbest": "nbest", "timsort": "timsort", "stable": "stable",
+              "optimal": "optimal", "other": "bogus"}
+
+
 def gen_opts(rng, idx, queried):
     opts = []
     names = [n for n, _, _ in idx]
@@ -305,6 +321,11 @@ def gen_sortopts(rng, idx):
         opts.append("limit=%d" % rng.choice([1, 1, 2, 2, 3, 50, 0, -1] if rng.random() < 0.3 else [1, 2, 3, 50]))
     if rng.random() < 0.4:
         opts.append("rev=1")
+    if rng.random() < 0.45:
+        # answered on the model side by the composed model (C12 o C07): the sort index's own FieldIndex.sort,
+        # every sort_type (forward scan in reverse / n-best without a limit / an unknown type are ValueErrors)
+        opts.append("st=" + rng.choice(["none", "none", "none", "fwscan", "nbest", "timsort", "stable", "optimal",
+                                        "other"]))
     return opts
 
 
@@ -624,6 +645,8 @@ class Impl(object):
                 o["limit"] = int(v)
             elif k == "rev":
                 o["reverse"] = v == "1"
+            elif k == "st":
+                o["sort_type"] = SORT_TYPES[v]
         return o
 
     def show(self, res, o, base):
@@ -708,7 +731,7 @@ class Impl(object):
         g = self.groups(toks)
         o = self.opts(g[0])
         ids = self.fam.IF.Set([int(t) for t in g[1]])
-        res = self.q.sort(ids, o.get("sort_index"), o.get("limit"), None, o.get("reverse", False))
+        res = self.q.sort(ids, o.get("sort_index"), o.get("limit"), o.get("sort_type"), o.get("reverse", False))
         return self.show(res, o, lambda: ids)
 
     # ---- dispatch
@@ -805,6 +828,9 @@ def features(case, outs):
                 f.append("%s:%s:%s:%s" % (op, srt, lim, res))
             if "uns=1" in o:
                 f.append(op + ":unsortable")
+            stv = [str(t).split("=")[1] for t in c if str(t).startswith("st=")]
+            if stv and srt == "sorted":
+                f.append("composed:%s:st=%s:%s" % (op, stv[0], res))
             if srt == "sorted" and lim == "limit" and not o.startswith("err"):
                 n = int(o.split(" ")[0])
                 lim_v = [int(str(t).split("=")[1]) for t in c if str(t).startswith("limit=")][0]
